@@ -345,4 +345,7 @@ class IpSession:
         code, obj = acc.hooks.mutate_char_reply("write", 207 if any_err else 204, {"characteristics": results})
         if code == 204:
             return http.response(204)
+        if obj is None or obj == "nolength":
+            # an error reply without a body (Content-Length: 0, or no framing header at all)
+            return http.response(code, b"", omit_length=(obj == "nolength"))
         return http.response(code, http.compact_json(obj))
